@@ -3,7 +3,8 @@ NEXT Next
 CONSTANTS
   MaxScen = 4
   FullUpTo = 3
-  EmitMod = 211
+  EmitAllUpTo = 2
+  EmitMod = 53
 INVARIANT ClausesHold
 INVARIANT RepairedHolds
 INVARIANT KFNarrow
